@@ -65,6 +65,7 @@ type nodeInc struct {
 	obs      incObs
 	acked, ackedTerm uint64 // highest (index,term) this incarnation acknowledged as stored and still holds
 	pendPrev, pendN  uint64 // append request in progress
+	gone      chan struct{} // closed when the incarnation's main goroutine has returned
 	diskErrs  int // disk errors injected into this incarnation
 	obsBroken bool
 	crashAtIO int // >0: crash when this many more I/O calls were made by this incarnation
@@ -479,7 +480,7 @@ func (run *simRun) bootConfig() Config {
 }
 
 func (run *simRun) startNode(node *simNode) *nodeInc {
-	ni := &nodeInc{run: run, node: node, n: len(node.incs), dir: node.dir, startedAt: run.sim.Now}
+	ni := &nodeInc{run: run, node: node, n: len(node.incs), dir: node.dir, startedAt: run.sim.Now, gone: make(chan struct{})}
 	ppm := int64(0)
 	if int(node.id) < len(run.cfg.ClockPPM) {
 		ppm = run.cfg.ClockPPM[node.id]
